@@ -667,6 +667,11 @@ def remove_tensor(expr: e.Expr, t_name: str) -> dict:
         #   sum convention -> only if target indices have been set manually
         if term.provided_target_idx is not None:
             term.set_target_idx(term.provided_target_idx + indices)
+        elif any(term.idx.count(s) != 1 for s in indices):
+            # an index of the removed tensor occurs more than once in the
+            # remaining term: the einstein sum convention would treat
+            # it as contracted index.
+            term.set_target_idx(term.terms[0].target + indices)
         # - apply the symmetry of the removed tensor to the term
         symmetrized_term = term.copy()
         for perms, sym_factor in tensor_sym.items():
